@@ -93,6 +93,8 @@ package placement
 //@   ensures [no-leaked-selection] forall fp *fitPeer :: allocated(fp) && old(allocated(fp)) && fp.selected ==> old(fp.selected)
 //@   ensures [past-the-end] index >= len(w.rules) ==> !result
 //@   ensures [wf] wfWorker(w)
+//@   ensures [earlier-rules-untouched] forall k :: {w.bestFit.RuleFits[k]} 0 <= k && k < index && k < len(w.rules) ==> w.bestFit.RuleFits[k] == old(w.bestFit.RuleFits[k])
+//@   ensures [nothing-recorded-unless-reported] !result && index < len(w.rules) ==> w.bestFit.RuleFits[index] == old(w.bestFit.RuleFits[index])
 //@   at enumPeers 1 assert [count] count >= 0 && count <= w.rules[index].Count || w.rules[index].Count < 0
 //@   at enumPeers 1 assert [count-candidates] count <= len(candidates) && arg1 == nil
 //@   at enumPeers 1 assert [candidates-valid] forall j :: 0 <= j && j < len(candidates) ==> candidates[j] != nil && !candidates[j].selected && (w.rules[index].Role != "learner" || isLearnerPeer(candidates[j]))
@@ -106,9 +108,12 @@ package placement
 //@   requires wfWorker(w) && 0 <= index && index < len(w.rules) && 0 <= count && len(selected) <= count
 //@   ensures [no-leaked-selection] forall fp *fitPeer :: allocated(fp) && old(allocated(fp)) && fp.selected ==> old(fp.selected)
 //@   ensures [wf] wfWorker(w)
+//@   ensures [earlier-rules-untouched] forall k :: {w.bestFit.RuleFits[k]} 0 <= k && k < index ==> w.bestFit.RuleFits[k] == old(w.bestFit.RuleFits[k])
+//@   ensures [nothing-recorded-unless-reported] !result ==> w.bestFit.RuleFits[index] == old(w.bestFit.RuleFits[index])
 //@   at compareBest 1 assert [exactly-count] len(selected) == count
 //@   loop 1 modifies w.bestFit.RuleFits[*], w.bestFit.OrphanPeers, all fitPeer.selected
 //@   loop 1 invariant wfWorker(w) && (forall fp *fitPeer :: allocated(fp) && old(allocated(fp)) && fp.selected ==> old(fp.selected))
+//@   loop 1 invariant [flag-remembers-every-improvement] (forall k :: {w.bestFit.RuleFits[k]} 0 <= k && k < index ==> w.bestFit.RuleFits[k] == old(w.bestFit.RuleFits[k])) && (!better ==> w.bestFit.RuleFits[index] == old(w.bestFit.RuleFits[index]))
 //@   modifies w.bestFit.RuleFits[*], w.bestFit.OrphanPeers, all fitPeer.selected
 
 // A strictly better combination for rule `index` invalidates everything recorded for later rules before they are re-fitted.
@@ -117,11 +122,13 @@ package placement
 //@   requires wfWorker(w) && 0 <= index && index < len(w.rules)
 //@   ensures [no-leaked-selection] forall fp *fitPeer :: allocated(fp) && old(allocated(fp)) && fp.selected ==> old(fp.selected)
 //@   ensures [wf] wfWorker(w)
+//@   ensures [earlier-rules-untouched] forall k :: {w.bestFit.RuleFits[k]} 0 <= k && k < index ==> w.bestFit.RuleFits[k] == old(w.bestFit.RuleFits[k])
+//@   ensures [nothing-recorded-unless-reported] !result ==> w.bestFit.RuleFits[index] == old(w.bestFit.RuleFits[index])
 //@   loop 1 modifies w.bestFit.RuleFits[*]
 //@   at fitRule 1 assert [recorded] w.bestFit.RuleFits[index] == rf && arg0 == index + 1
 //@   at fitRule 1 assert [later-reset] forall i :: index < i && i < len(w.rules) ==> w.bestFit.RuleFits[i] == nil
 //@   at fitRule 2 assert [next] arg0 == index + 1
-//@   loop 1 invariant index < i && w.bestFit.RuleFits[index] == rf && wfWorker(w) && (forall k :: index < k && k < i ==> w.bestFit.RuleFits[k] == nil) && (forall fp *fitPeer :: allocated(fp) && old(allocated(fp)) && fp.selected ==> old(fp.selected))
+//@   loop 1 invariant index < i && w.bestFit.RuleFits[index] == rf && wfWorker(w) && (forall k :: {w.bestFit.RuleFits[k]} 0 <= k && k < index ==> w.bestFit.RuleFits[k] == old(w.bestFit.RuleFits[k])) && (forall k :: index < k && k < i ==> w.bestFit.RuleFits[k] == nil) && (forall fp *fitPeer :: allocated(fp) && old(allocated(fp)) && fp.selected ==> old(fp.selected))
 //@   modifies w.bestFit.RuleFits[*], w.bestFit.OrphanPeers, all fitPeer.selected
 
 // The orphan list is exactly the unselected peers, in order, once every rule has been visited.
